@@ -110,4 +110,11 @@ var propMeta = map[string]*PropMeta{
 		Assumptions: append([]string{"in-stream message loss/duplication/reordering is not injected (both real links are ordered streams)", "leader and D plan each query at the same simulated instant; link delays are small compared with the resolution"}, commonAssumptions...),
 		Probes: []string{"probe.routing-checked", "link.delivered", "codec.point", "codec.row"},
 	},
+	"C12": {
+		Level: "exploration", QuickSecs: 75, ThoroughSecs: 1200, Recycle: 40,
+		Rule: "one case = one seeded plan in world CL (1-2 leaders, 2-3 partitions, 1-2 followers each, codec on in half of the plans) with a standalone differential node D: 5-60 inserts interleaved with 1-8 faults drawn from {stop/start follower (clean), kill follower at a quiescent instant and restart it on the crash image, crash point at the n-th hit of a flush/offset site on a follower, stop/start or kill/restart a leader, cut a replication link at a message boundary (healed later or only when faults stop), stall a link for 0.5-40 s, per-message delay, replace a follower by an empty one}, follower flushes and clock advances up to 70 s (reconnect back-off). Oracle: once faults stop (every link healed, every node up) then within 5 simulated minutes (a) per table and (key, period) the partitions together hold exactly D's _points (each accepted point exactly once), (b) redundant followers of a partition are identical, (c) a generated query battery returns the same rows through every leader as on D with all partitions successful. Non-trivial = a compared query returned rows.",
+		Real:  realCL, Stub: stubCL,
+		Assumptions: append([]string{"leader WAL is never truncated by size (the property assumes followers can catch up)", "in-stream loss/duplication/reordering is not injected; re-delivery after reconnect is (resume from the last acknowledged offset)"}, commonAssumptions...),
+		Probes: []string{"fault.node.stop", "fault.node.kill", "fault.node.crashpoint", "fault.link.cut", "fault.link.stall", "fault.node.replaced-empty", "fault.link.broken-delivery", "probe.routing-checked"},
+	},
 }
